@@ -111,6 +111,9 @@ def run_ops(h, ops, V, stats, inputs, snap, xrng):
         except lc.StepExhausted:
             stats["hmc_step_exhausted"] += 1
             return
+        except rctx.Runaway:
+            stats["op_runaway_history_ended"] += 1  # liveness belongs to C15
+            return
         except LibRaised as e:
             _viol(V, "op.raised", "%s: %s" % (h.label, e))
             return
